@@ -996,6 +996,72 @@ def pointer_kernel_contracts(ctx, rule='pointer-kernel-contracts'):
 
 
 
+STRIDE_NAMES = ('stride', 'ld', 'lda', 'outer_stride')
+
+
+def stride_arguments(ctx, rule='pointer-kernel-contracts'):
+    """The pointer kernels walk a block by an explicit column stride.  Their index proofs are relative to that parameter; they say
+    something about the caller's memory only if the argument IS the storage stride of the matrix the block (or pointer) is taken
+    from: `M.outerStride()` of that very matrix, or the row count of a plain Eigen::Matrix member (contiguous by type) whose
+    declared extent has that many rows.  `rows()` of a Ref parameter is not: a Ref<Matrix> binds to a strided view without a
+    copy, and the kernel then reads and writes rows of the parent that are outside the view."""
+    n = 0
+    seen = set()
+    for fn in ctx.F.concrete():
+        if not fn.cfg or not (fn.cls or '').startswith('Spectra::'):
+            continue
+        rec = [r for r in ctx.F.records.values() if r['qname'] == fn.record and not r['dep']]
+        ftypes = {f['name']: f['type'] for f in rec[0]['fields']} if rec else {}
+        for c in fn.walk():
+            if c['k'] not in ('CXXMemberCallExpr', 'CallExpr'):
+                continue
+            t = ctx.F.resolve(c)
+            if t is None:
+                continue
+            pn = [t.locals[v]['name'] for v in t.params]
+            args = fn.call_args(c)
+            for k, nm in enumerate(pn):
+                if nm not in STRIDE_NAMES or k >= len(args):
+                    continue
+                st = sym(fn, args[k])
+                # the matrix the data comes from: a block / data() of a field or parameter among the other arguments, or -- when the
+                # pointer argument is a local -- the field the kernel's class walks (tabulated by the dense model: a plain member)
+                srcs = set()
+                for a in args[:k] + args[k + 1:]:
+                    for y in fn.walk(a['id']):
+                        if y['k'] == 'MemberExpr' and y.get('mk') == 'field' and ftypes.get(y.get('member'), '').startswith('Eigen::Matrix<'):
+                            srcs.add(('F', y['member']))
+                        if y['k'] == 'DeclRefExpr' and y.get('var') in fn.params and 'Eigen::' in fn.locals[y['var']]['type']:
+                            srcs.add(('P', fn.locals[y['var']]['name']))
+                key = (fn.cls, fn.name, t.name, show(st), tuple(sorted(srcs)))
+                if key in seen:
+                    continue
+                seen.add(key)
+                n += 1
+                inst = '%s::%s->%s/stride' % (fn.cls.replace('Spectra::', ''), fn.name, t.name)
+                ok, why = False, ''
+                if isinstance(st, tuple) and st[0] == 'outerStride' and (not srcs or st[1] in srcs):
+                    ok, why = True, 'outerStride() of %s' % show(st[1])
+                elif st[0] == 'F' and ftypes.get(st[1], '') in zone.INT_TYPES | {'Eigen::Index', 'const Eigen::Index'}:
+                    # an integer member: right iff the source is a plain Matrix member whose extent has exactly that many rows
+                    plain = [s_ for s_ in srcs if s_[0] == 'F']
+                    params = [s_ for s_ in srcs if s_[0] == 'P']
+                    if params:
+                        ok, why = False, 'the member %s is handed over as the stride of the parameter %s' % (st[1], params[0][1])
+                    else:
+                        ok, why = True, 'row count %s of the plain (contiguous) Matrix member%s the class walks; its extent is established by the extent rules' % (
+                            st[1], ' ' + plain[0][1] if plain else '')
+                else:
+                    ok = False
+                    why = '`%s` is not the storage stride' % show(st)
+                    if isinstance(st, tuple) and st[0] == 'rows':
+                        why = ('`%s` is handed over as the column stride of %s, which is an Eigen::Ref: a Ref binds to a strided view (`big.topRows(k)`) without copying, its columns are '
+                               '%s.outerStride() apart, and the kernel then reads and writes rows of the parent matrix outside the view' % (show(st), show(st[1]), show(st[1])))
+                ctx.check(ok, rule, inst, fn.qname, 'stride argument is ' + why if ok else why)
+    if n < 4:
+        raise AnalysisBroken('only %d stride arguments found (5 confirmed by hand)' % n)
+
+
 # D13: aligned packet accesses need alignment evidence for the address they touch
 def aligned_access_evidence(ctx, rule='aligned-packet-access-has-alignment-evidence'):
     """An aligned packet load / store on a misaligned address is undefined behaviour (a fault on x86-64).  Every aligned access
@@ -1586,6 +1652,7 @@ def run(ctx):
     packed_storage_contracts(ctx)
     aligned_access_evidence(ctx)
     pointer_kernel_contracts(ctx)
+    stride_arguments(ctx)
     reflector_sizes_cover_block(ctx)
     permutation_sign_structure(ctx)
 
